@@ -54,6 +54,17 @@ CHECKS["C03"] = dict(
     note=NOTE_BASE + "PARTIAL: the XML text layer (Xml.Lex/Xml.Print vs expat/ElementTree.tostring) is validated by correspondence, not proved.",
     technique="Coq proof at element level + correspondence-validated XML layer (partial at byte level)",
     design="4/C03")
+CHECKS["C10"] = dict(
+    text="Theorems over exact integers, for every format of the family and every finite value (no range bound): rendered_text_is_valid, "
+         "rendered_text_parses_to_what_it_denotes, sexagesimal_denotes_nearest_unit (|units/U - p/q| <= 1/(2U)), sexagesimal_fields_in_range (no 1:60), "
+         "sexagesimal_sign_on_whole_magnitude, fixed_point_denotes_nearest (round-half-even), integer_format_truncates, "
+         "every_indi_number_text_is_parsed (1-3 fields, ':' ';' blank, sign, fraction; independent of the property's format), "
+         "validator_and_parser_share_the_grammar (iff). Correspondence: num_to_str/str_to_num/checks.number vs the model, strings byte-identical, "
+         "on enumerated boundary classes, random values, all strings up to length 4 (5 thorough) over a 14-symbol alphabet; thorough adds full "
+         "resolution grids on [-360,360].",
+    note=NOTE_BASE + "Outside the theorem: float->exact rational and exact rational->nearest float conversions; CPython %-formatting being correctly rounded (modelled as round-half-even).",
+    technique="Coq proof (exact integer arithmetic, lia/nia; string-level lemmas for the shared grammar) + correspondence",
+    design="4/C10")
 PENDING = {}
 props = [json.loads(l) for l in open(os.path.join(V, "properties.jsonl"))]
 checks, na = [], []
